@@ -33,7 +33,14 @@ def main():
         stxt = "-"
         if os.path.exists(sr):
             r = json.load(open(sr))["results"]
-            stxt = "%d/%d" % (sum(1 for x in r if x.get("result") == "caught"), len(r))
+            sup = set()
+            for x in r:
+                mp = V + "/seeded/%s/meta.json" % x["mutant"].replace("(ported)", "")
+                if os.path.exists(mp) and str(json.load(open(mp)).get("status", "")).startswith(("superseded", "not-decided")):
+                    sup.add(x["mutant"])
+            stxt = "%d/%d" % (sum(1 for x in r if x.get("result") == "caught" and x["mutant"] not in sup), len(r) - len(sup))
+            if sup:
+                stxt += " (+%d not counted, see 7.4)" % len(sup)
         out.append("| %s | %s | %d | %d | %s | %s |" % (pid, "yes" if pid in reg else "no", nopen, nfix, mtxt, stxt))
     out.append("\n### 7.2 Genuine defects repaired in /repo (`fix:` commits, generated from git log)\n")
     log = sh("git", "-C", "/repo", "log", "--reverse", "--format=%h %s")
@@ -67,6 +74,8 @@ def main():
                     notes = ln[:160]
                     break
         x = res.get(name, {})
+        if str(meta.get("status", "")).startswith(("superseded", "not-decided")):
+            x = dict(x, result=meta["status"], keys=[])
         out.append("| %s | %s | %s | %s | %s |" % (name, meta.get("property"), notes.replace("|", "/"), (x.get("result", "not run") + (" (re-diffed against HEAD: patch-ported.diff)" if x.get("ported") else "")),
                                                   ", ".join("`%s`" % k for k in x.get("keys", [])[:3])))
     txt = "\n".join(out) + "\n"
